@@ -56,7 +56,8 @@ const (
 	FeatHelloMatrix    = 512  // C08: hello member combinations delivered in the hello listen states, drawn uniformly
 	FeatRaceWs         = 1024 // C20: the websocket workloads of C12 / C13 under the race detector
 	FeatTransportStall = 2048 // C06 / C12 pair engines: the sending direction of one endpoint stalls for a while
-	FeatAll            = 4095
+	FeatTimerTies      = 4096 // C14: re-arm / stop placed exactly at the expiry instant of the running timer
+	FeatAll            = 8191
 )
 
 // SetFeatForRig forces the dual-stack options of the next hub rig (workloads
